@@ -53,6 +53,33 @@ def _project(sm, names):
     return out
 
 
+def _propagate(sm, real_names, names, rho):
+    """Unit propagation of the REAL clause list under the partial assignment rho (pysat propagate() on a fresh
+    solver: no learnt clauses, pure BCP).  -> (conflict, [[var, value] ..] user literals newly implied).
+    propagate() does not report what is already fixed at decision level 0 (unit clauses), so every clause gets
+    a guard literal ~G and G is the first assumption: same propagation, nothing at level 0."""
+    from pysat.solvers import Solver
+    ids, cnf = {}, []
+    for n in real_names:
+        ids[n] = len(ids) + 1
+    for cl in sm.clauses:
+        if len(cl) == 0:
+            return 1, []
+        cnf.append([(ids.setdefault(l.v, len(ids) + 1)) * (1 if l.s else -1) for l in cl])
+    val = {v: x for (v, x) in rho}
+    assum = [(i + 1) if val[v] == 1 else -(i + 1) for i, v in enumerate(names) if val.get(v, 2) != 2]
+    guard = len(ids) + 1
+    with Solver(name="g3", bootstrap_with=[c + [-guard] for c in cnf]) as s:
+        ok, lits = s.propagate(assumptions=[guard] + assum, phase_saving=0)
+    if not ok:
+        return 1, []
+    out = []
+    for x in lits:
+        if abs(x) <= len(names) and x not in assum:
+            out.append([names[abs(x) - 1], 1 if x > 0 else 0])
+    return 0, sorted(out)
+
+
 def _expr(nf, L):
     from tools.rect.pseudobool import Expr, Term
     e = Expr() + int(nf["c"])
@@ -73,7 +100,8 @@ def run_process(case):
     mgrs = []
     obs = []
     for e in case["events"]:
-        o = {"refused": 0, "proj": [], "sat": 0, "model": [], "negs": [], "evals": [], "store": [], "root": -1}
+        o = {"refused": 0, "proj": [], "sat": 0, "model": [], "negs": [], "evals": [], "store": [], "root": -1,
+             "conflict": 0, "implied": []}
         if e["ev"] == "new":
             sm = SATManager()
             lits = {v: sm.newvar(v) for v in names}
@@ -117,6 +145,8 @@ def run_process(case):
             o["store"] = [[str(t[0])[4:] if str(t[0]).startswith("def_") else str(t[0]), int(t[1]), int(t[2])] for t in pb.memory[2:]]
             if len(sm.clauses) > n0 and len(sm.clauses[-1]) == 1 and sm.clauses[-1][0].v.startswith("robdd_"):
                 o["root"] = int(sm.clauses[-1][0].v[6:])
+        elif e["ev"] == "prop":
+            o["conflict"], o["implied"] = _propagate(sm, [lits[v].v for v in names], names, e["rho"])
         else:  # solve
             try:
                 o["sat"] = int(bool(sm.solve()))
@@ -337,7 +367,8 @@ def _decide_batch(ctx: Ctx, runner: Runner, cases: list[str], cfg: str, first: b
             ctx.count()
             evs.append({"ev": e["ev"], "m": e["m"], "c": e["c"], "refused": o["refused"], "proj": o["proj"], "sat": o["sat"],
                         "model": o["model"], "negs": o["negs"], "probes": e.get("probes", []), "evals": o["evals"],
-                        "store": o["store"] if c["detail"] else [], "root": o["root"]})
+                        "store": o["store"] if c["detail"] else [], "root": o["root"],
+                        "rho": e.get("rho", []), "conflict": o["conflict"], "implied": o["implied"]})
         t = {"vars": c["vars"], "detail": c["detail"], "events": evs}
         key = digest(t)
         if key not in traces:
@@ -356,6 +387,15 @@ def _decide_batch(ctx: Ctx, runner: Runner, cases: list[str], cfg: str, first: b
                     nontrivial = True
                 prev[e["m"]] = len(e["proj"])
         ctx.count(key, nontrivial=nontrivial, n=0)
+        nprobes = sum(1 for e in t["events"] if e["ev"] == "prop")
+        if nprobes:   # propagation-strength probes: information only (no property claim)
+            tag = json.loads(own["case"]).get("tag", "?")
+            rc = ctx.extra.setdefault("arc_consistency", {}).setdefault("real_code", {})
+            d = rc.setdefault(tag, {"constraints": 0, "probes": 0, "undetected": 0, "incomplete": 0})
+            d["constraints"] += 1
+            d["probes"] += nprobes
+            for (_l, what) in v.get("ac", []):
+                d[what] += 1
         if v["fails"]:
             # a wrong encoding stays in the manager: only the first failing event of the process is reported
             first = min(l for (l, _c) in v["fails"])
@@ -390,6 +430,76 @@ def _mc(ctx, cfg, kinds):
     if not hs or not set(kinds) <= seen:
         raise MachineryError(f"vacuous generation: {cfg} printed {len(hs)} histories with kinds {sorted(seen)}")
     return hs
+
+
+AC_HOLD_KINDS = ("clause", "imply", "amo_quadratic", "amo_heule", "pb_clause")
+
+
+def _counterexample(stdout: str) -> str:
+    i = stdout.rfind("State ")
+    txt = " ".join(stdout[i:].split()) if i >= 0 else ""
+    for key in ("/\\ hist = ", "/\\ lastq = "):
+        j = txt.find(key)
+        if j >= 0:
+            k = txt.find(" /\\ ", j + 4)
+            return txt[j:k if k > 0 else j + 1500][:1500]
+    return txt[:600]
+
+
+def ac_stage(ctx: Ctx, runner: Runner) -> None:
+    """Extension (thorough only, no property claim): propagation strength of the encodings.
+    TLC states for which constraint kinds unit propagation on the specified CNF is complete; the must-fail
+    configurations have to produce a counterexample; the real CNF is probed with pysat's propagate() under every
+    TLC-generated partial assignment and SatTrace judges the implied literals."""
+    ac = ctx.extra.setdefault("arc_consistency", {})
+    ac["universe"] = ("one constraint per manager; 3 user variables (5 for at-most-one), every partial assignment; "
+                      "clauses/implications <= 2 literals, at-most-one groups to 5 (Heule k=3,4), inequalities "
+                      "k1*l1 + k2*l2 + k3*l3 >= b with coefficients 1..3, either polarity, b in 1..8, both constructions")
+    model = ac.setdefault("model", {})
+    for spec, cfg, what in [("Robdd", "Robdd_up_sound", "UnitPropagationSound, both constructions"),
+                            ("Robdd", "Robdd_up_plain_detects", "UnitPropagationDetects, plain construction"),
+                            ("SatLayer", "SatLayer_ac_plain_detects", "ProbeSound + ProbeDetectsInconsistency, kind pb_plain")]:
+        res = tlc.model_check(ctx, spec, cfg, coverage=False)
+        model[cfg] = {"expected": "holds", "result": "holds", "invariants": what, "states": res["distinct"]}
+    for spec, cfg, inv in [("Robdd", "Robdd_up_plain_complete_mustfail", "UnitPropagationComplete"),
+                           ("Robdd", "Robdd_up_dec_detects_mustfail", "UnitPropagationDetects"),
+                           ("SatLayer", "SatLayer_ac_plain_complete_mustfail", "ProbeArcConsistent"),
+                           ("SatLayer", "SatLayer_ac_dec_detects_mustfail", "ProbeDetectsInconsistency")]:
+        res = tlc.run_tlc(ctx, spec, cfg, expect_ok=False, tag="mustfail")
+        if f"Invariant {inv} is violated" not in res["stdout"]:
+            raise MachineryError(f"{cfg}: TLC was expected to refute {inv} and did not")
+        model[cfg] = {"expected": "violated", "result": "violated", "invariants": inv,
+                      "counterexample": _counterexample(res["stdout"])}
+    cases = []
+    for cfg, names in [("SatLayer_ac_hold", V7[:3]), ("SatLayer_ac_amo", V7[:5])]:
+        res = tlc.model_check(ctx, "SatLayer", cfg, coverage=False)
+        model[cfg] = {"expected": "holds", "result": "holds", "states": res["distinct"],
+                      "invariants": "ProbeSound, ProbeDetectsInconsistency, ProbeArcConsistent for kinds " + ", ".join(AC_HOLD_KINDS)}
+        groups: dict[str, dict] = {}
+        for h in res["printed"]:
+            if not (isinstance(h, dict) and "events" in h and h["events"][-1]["ev"] == "prop"):
+                continue
+            pre, pe = h["events"][:-1], h["events"][-1]
+            g = groups.setdefault(json.dumps(pre, sort_keys=True), {"pre": pre, "tag": pe["tag"], "props": []})
+            g["props"].append({"ev": "prop", "m": pe["m"], "c": dict(BLANK), "rho": pe["rho"]})
+        if not groups:
+            raise MachineryError(f"vacuous generation: {cfg} printed no propagation probes")
+        for g in groups.values():
+            cases.append(json.dumps({"vars": names, "detail": 1, "tag": g["tag"], "src": "ac",
+                                     "events": g["pre"] + sorted(g["props"], key=lambda x: json.dumps(x["rho"]))}))
+        del res
+    decide(ctx, runner, [c for c in cases if len(json.loads(c)["vars"]) <= 3], "SatTrace3")
+    decide(ctx, runner, [c for c in cases if len(json.loads(c)["vars"]) > 3], "SatTrace")
+    rc = ac.get("real_code", {})
+    for tag in AC_HOLD_KINDS:
+        d = rc.get(tag)
+        if d and (d["undetected"] or d["incomplete"]):
+            ctx.model_drift(f"propagation on the real CNF is weaker than the model states for kind {tag}")
+    if rc.get("pb_plain", {}).get("undetected"):
+        ctx.model_drift("propagation on the real CNF misses a conflict for kind pb_plain (the model says it never does)")
+    ac["summary"] = ("complete (arc-consistent) by unit propagation: " + ", ".join(AC_HOLD_KINDS) + "; "
+                     "pb_plain: every partial assignment without solution is refuted by propagation, but entailed literals "
+                     "are not all derived (one-directional Tseitin); pb_decomposition: not even every conflict is found")
 
 
 def run(ctx: Ctx) -> int:
@@ -431,6 +541,8 @@ def _run(ctx: Ctx, runner: Runner) -> int:
     rnd = random_cases(rng, 1200 if tier == "quick" else 20000)
     ntr = decide(ctx, runner, small + hist, "SatTrace3")
     ntr += decide(ctx, runner, big + [json.dumps(c) for c in rnd], "SatTrace")
+    if tier == "thorough":
+        ac_stage(ctx, runner)
     ctx.extra["cases_from_tlc"] = n_tlc
     ctx.extra["history_cases"] = len(hist)
     ctx.extra["random_cases"] = len(rnd)
